@@ -107,7 +107,7 @@ static void put_blocks(vh::Case& c, ParCSRMatrix* A) {
     put_all(c, LL(A->off_proc->idx1)); put_all(c, LL(A->off_proc->idx2)); put_all(c, vh::dbits_ll(A->off_proc->vals));
 }
 
-static void scale_case(vh::Rng& g, int it, bool rowscale)
+static void scale_case(vh::Rng& g, int it, bool rowscale, bool tiny = false)
 {
     int np = E.np, rank = E.rank;
     int cap = 2 + std::min(14, it / 3);
@@ -132,6 +132,17 @@ static void scale_case(vh::Rng& g, int it, bool rowscale)
         A->on_proc->sort();
     }
     int fr = A->partition->first_local_row, lr = A->local_num_rows;
+    if (tiny && n > 0) {
+        // one unknown rescaled by 2^-35 (its row and its column; the diagonal entry by 2^-70, far below 1e-16), written into the
+        // assembled blocks directly: assembly itself drops entries that small. D A D is invariant under such a rescaling.
+        int kt = it % n; double sc = std::ldexp(1.0, -35);
+        auto gcol_on = [&](int j) { return j < (int)A->on_proc_column_map.size() ? A->on_proc_column_map[j] : A->partition->first_local_col + j; };
+        for (int i = 0; i < lr; i++) {
+            for (int p = A->on_proc->idx1[i]; p < A->on_proc->idx1[i + 1]; p++) { if (fr + i == kt) A->on_proc->vals[p] *= sc; if (gcol_on(A->on_proc->idx2[p]) == kt) A->on_proc->vals[p] *= sc; }
+            for (int p = A->off_proc->idx1[i]; p < A->off_proc->idx1[i + 1]; p++) { if (fr + i == kt) A->off_proc->vals[p] *= sc; if (A->off_proc_column_map[A->off_proc->idx2[p]] == kt) A->off_proc->vals[p] *= sc; }
+        }
+        b[kt] *= sc;
+    }
     ParVector rhs(n, lr), sol(n, lr);
     vh::fill_vec(rhs, b, fr); vh::fill_vec(sol, y, fr);
     vh::Case c("C20", rowscale ? "rscale" : "dscale");
@@ -166,6 +177,7 @@ int main(int argc, char** argv)
         if (!strcmp(what, "repart")) repart_case(g, it);
         else { scale_case(g, it, false); scale_case(g, it, true); }
     }
+    if (strcmp(what, "repart")) { vh::Rng gx(E.seed * 15485863 + 2020); for (int it = 0; it < n / 3; it++) { scale_case(gx, it, false, true); scale_case(gx, it, true, true); } }   // after the regular cases
     E.finish();
     MPI_Finalize();
     return 0;
